@@ -1,6 +1,8 @@
 use crate::runner::{Ctx, Property};
 
 pub mod c01;
+pub mod c11;
+pub mod c10;
 pub mod c13;
 pub mod c12;
 pub mod c08;
@@ -19,6 +21,8 @@ pub mod c20;
 pub fn all(ctx: &Ctx) -> Vec<Property> {
     vec![
         c01::property(ctx),
+        c11::property(ctx),
+        c10::property(ctx),
         c13::property(ctx),
         c12::property(ctx),
         c08::property(ctx),
